@@ -314,3 +314,16 @@ func deferredCounterCompared(c *Ctx) {
 }
 
 var _ = pipeline.Module
+
+// c06FedDoneLast: the federation goroutines' Done is their last effect (C20/group-done-last), for every federation configuration.
+func c06FedDoneLast(c *Ctx) {
+	var feds []*GenPkg
+	for _, g := range c.Gen {
+		if g.Fed {
+			feds = append(feds, g)
+		}
+	}
+	if len(feds) > 0 {
+		doneIsLast(c, "group-done-last", feds)
+	}
+}
